@@ -268,6 +268,12 @@ pub fn finish(meta: RunMeta, report: Report, findings: &[Finding], witness_sigs:
         if report.counters.get("harness_panics").copied().unwrap_or(0) > 0 {
             println!("INCONCLUSIVE: a harness shard panicked outside a monitored call: {:?}", report.notes);
             inconclusive_run = true;
+        } else if report.inconclusive * 200 > report.evaluations.max(1) {
+            println!(
+                "INCONCLUSIVE: {} of {} cases could not be judged: {:?}",
+                report.inconclusive, report.evaluations, report.inconclusive_reasons
+            );
+            inconclusive_run = true;
         } else if distinct < meta.floor_nontrivial {
             println!(
                 "INCONCLUSIVE: only {} distinct non-trivial cases observed (floor {}), inconclusive cases: {} {:?}",
